@@ -26,7 +26,7 @@ def main (args : List String) : IO UInt32 := do
   let stdout ← IO.getStdout
   match args with
   | ["sinks"] => loop stdin stdout Driver.Sinks.step Driver.Sinks.St.none; return 0
-  | ["sched"] => loop stdin stdout Driver.Sched.step ({ d := {} } : Driver.Sched.Ctx); return 0
+  | ["sched"] => loop stdin stdout Driver.Sched.stepTop ({ d := {} } : Driver.Sched.Ctx); return 0
   | ["synccell"] => loop stdin stdout Driver.SeqLock.step ({} : Driver.SeqLock.DSt); return 0
   | ["task"] => loop stdin stdout Driver.Task.step ({} : Driver.Task.DSt); return 0
   | ["queue"] => loop stdin stdout Driver.Queue.step ({} : Driver.Queue.DSt); return 0
